@@ -40,22 +40,15 @@ type sfObs struct {
 type sfEnv struct {
 	once sync.Once
 	sm   *logic.ServerManager
+	base string
 	tmp  string
 }
 
-func newSfEnv() *sfEnv { return &sfEnv{} }
+func newSfEnv(base string) *sfEnv { return &sfEnv{base: base} }
 
 func (e *sfEnv) server() *logic.ServerManager {
 	e.once.Do(func() {
-		root := ""
-		if st, err := os.Stat("/dev/shm"); err == nil && st.IsDir() {
-			root = "/dev/shm"
-		}
-		e.tmp, _ = os.MkdirTemp(root, "lalverif-sf")
-		go func() { // the child is short-lived; remove the directory when the parent is done with us
-			time.Sleep(20 * time.Minute)
-			os.RemoveAll(e.tmp)
-		}()
+		e.tmp, _ = os.MkdirTemp(e.base, "srv") // below the parent's scratch directory, which the parent removes
 		httpc := func(pat string) M {
 			return M{"enable": true, "enable_https": false, "url_pattern": pat, "gop_num": 0, "single_gop_max_frame_num": 0}
 		}
